@@ -152,17 +152,18 @@ Texts(s, a, b) == [k \in 1..(b - a + 1) |-> s[a + k - 1][2]]
 RECURSIVE UseLeaves(_, _, _, _, _)
 RECURSIVE GroupLeaves(_, _, _, _, _, _)
 UseLeaves(s, p, a, b, prefix) ==
-    IF a > b THEN <<>>
-    ELSE IF IsOpen(s[a]) /\ p[a] = b THEN GroupLeaves(s, p, a + 1, a + 1, b, prefix)
+    IF a > b THEN << prefix \o <<"<missing>">> >>        \* `a::` without a suffix: not a use tree
+    ELSE IF s[a] = LBrace /\ p[a] = b THEN GroupLeaves(s, p, a + 1, a + 1, b, prefix)
     ELSE IF a + 2 <= b /\ s[a+1] = Colon /\ s[a+2] = Colon /\ ~IsOpen(s[a])
          THEN UseLeaves(s, p, a + 3, b, Append(prefix, s[a][2]))
     ELSE IF a + 1 <= b /\ s[a] = Colon /\ s[a+1] = Colon          \* leading `::`
          THEN UseLeaves(s, p, a + 2, b, Append(prefix, "::"))
-    ELSE << prefix \o Texts(s, a, b) >>
+    ELSE << prefix \o <<"|">> \o Texts(s, a, b) >>      \* module path | imported item (`x`, `x as y`, `*`)
 
 \* items of the group content s[start .. close-1], q scans for the next top-level comma
 GroupLeaves(s, p, start, q, close, prefix) ==
-    IF q >= close THEN UseLeaves(s, p, start, close - 1, prefix)
+    IF q >= close THEN (IF start >= close THEN <<>>     \* nothing after a trailing comma
+                        ELSE UseLeaves(s, p, start, close - 1, prefix))
     ELSE IF s[q] = Comma
          THEN UseLeaves(s, p, start, q - 1, prefix) \o GroupLeaves(s, p, q + 1, q + 1, close, prefix)
     ELSE IF IsOpen(s[q]) /\ p[q] > q THEN GroupLeaves(s, p, start, p[q] + 1, close, prefix)
